@@ -523,7 +523,7 @@ impl Slots {
     fn new(thorough: bool) -> Slots {
         if thorough {
             Slots {
-                arg: vec!["", "0", "1", "10", "a", "_0", "_a", "é", "a\u{663}", "न\u{93e}म"],
+                arg: vec!["", "0", "1", "10", "a", "_0", "_a", "é", "a\u{663}", "न\u{93e}म", "a\u{b7}b", "e\u{301}", "_\u{203f}"],
                 ws_before_colon: vec!["", " ", "\u{a0}", "\u{3000}"],
                 fill_align: vec!["", "<", "^", ">", "*<", "0>", "é^", "}<"],
                 sign: vec!["", "+", "-"],
@@ -536,7 +536,7 @@ impl Slots {
             }
         } else {
             Slots {
-                arg: vec!["", "1", "_0", "a", "a\u{663}"],
+                arg: vec!["", "1", "_0", "a", "a\u{663}", "a\u{b7}b", "e\u{301}"],
                 ws_before_colon: vec!["", " ", "\u{a0}"],
                 fill_align: vec!["", ">", "*<", "é^"],
                 sign: vec!["", "+"],
